@@ -215,16 +215,9 @@ pub assume_specification[ <KnownWord as core::cmp::PartialEq>::eq ](a: &KnownWor
 //@extract file=src/vm/value/mod.rs path="enum SymbolicValueData" kind=type
 //@end
 
-// A-DERIVE: `#[derive(Clone)]` returns an equal value (for the tree types: a structurally equal tree).
+// A-DERIVE: `#[derive(Clone)]` on the payload enum returns an equal value (children are `Arc`s: the clone
+// shares them; `Uuid`, `KnownWord`, `usize` fields are `Copy`).
 impl<AuxData: Clone> Clone for SymbolicValueData<AuxData> {
-    #[verifier::external_body]
-    fn clone(&self) -> (r: Self) ensures r == *self { unimplemented!() }
-}
-impl<AuxData: Clone> Clone for SymbolicValue<AuxData> {
-    #[verifier::external_body]
-    fn clone(&self) -> (r: Self) ensures r == *self { unimplemented!() }
-}
-impl<AuxData: Clone> Clone for PackedSpan<AuxData> {
     #[verifier::external_body]
     fn clone(&self) -> (r: Self) ensures r == *self { unimplemented!() }
 }
